@@ -13,7 +13,7 @@ import PdfModel.Core.Out
   b"()<>[]{}/%".contains(b)                          isDelim
   !is_whitespace(pos) && !is_delimiter(pos)          isRegular
   Lexer::skip_whitespace  (Err(EOF) at the end)      skipWs
-  the `while buf.get(pos) == Some(&b'%')` loop       skipComments  (a comment without a line feed leaves
+  the `while buf.get(pos) == Some(&b'%')` loop       skipComments  (a comment without an end of line leaves
                                                                     the cursor right behind the `%`)
   Lexer::next_word / next                            nextWord      (lexeme, suffix behind the lexeme)
   Substr::to::<usize>() / to::<u64>()                parseUsize    (`usize::from_str`: optional `+`,
@@ -26,8 +26,8 @@ namespace OffLex
 
 abbrev Bytes := List UInt8
 
-/-- `is_whitespace`: NUL, space, CR, LF, TAB (form feed is D1, another package). -/
-def isWs (b : UInt8) : Bool := b == 0 || b == 32 || b == 13 || b == 10 || b == 9
+/-- `is_whitespace`: NUL, space, CR, LF, TAB, FF (the tree after the D1 repair). -/
+def isWs (b : UInt8) : Bool := b == 0 || b == 32 || b == 13 || b == 10 || b == 9 || b == 12
 
 /-- `b"()<>[]{}/%".contains(b)` -/
 def isDelim (b : UInt8) : Bool :=
@@ -43,9 +43,10 @@ def skipWs (r : Bytes) : Out Bytes :=
   | [] => .err
   | b :: r' => .ok (b :: r')
 
-/-- `if let Some(off) = buf[pos..].iter().position(|&b| b == b'\n') { pos += off + 1 }` -/
+/-- `if let Some(off) = buf[pos..].iter().position(|&b| b == b'\n' || b == b'\r') { pos += off + 1 }`
+    (the tree after the D3 repair: a comment ends at CR or LF) -/
 def afterNl (tl : Bytes) : Bytes :=
-  match tl.dropWhile (fun b => b != 10) with
+  match tl.dropWhile (fun b => b != 10 && b != 13) with
   | [] => tl
   | _ :: rest => rest
 
